@@ -39,8 +39,18 @@ func ruleBinUnplaced(c *Ctx, r *Rep, tier string) {
 					break
 				}
 				v := other | a | b
-				const binOfInterval = 424242 // stands for BinFor(Pos, End()), which is not looked into
-				sr := symExec(fn, map[string]int64{"$0.Flags": v, "$0.Pos": 500, "$0.End()": 1000, "BinFor($0.Pos,$0.End())": binOfInterval})
+				const binOfInterval = 424242 // stands for BinFor(Pos, …), which is not looked into: the run stops at that call
+				sr := symExecAt(fn, entryLoc(fn), func(i ssa.Instruction) bool {
+					call, ok := i.(*ssa.Call)
+					if !ok {
+						return false
+					}
+					g := staticCallee(&call.Call)
+					return g != nil && g.Name() == "BinFor"
+				}, map[string]int64{"$0.Flags": v, "$0.Pos": 500, "$0.End()": 1000})
+				if sr.Stopped != nil && sr.Undec == "" {
+					sr.Rets, sr.Known = []int64{binOfInterval}, []bool{true}
+				}
 				n++
 				both := a != 0 && b != 0
 				switch {
@@ -66,6 +76,43 @@ func ruleBinUnplaced(c *Ctx, r *Rep, tier string) {
 		}
 	}
 	r.Check(why == "", rule, "sam.(*Record).Bin#unplaced-shortcut", c.Pos(fn.Pos()), fmt.Sprintf("%d flag combinations: 4680 iff Unmapped and MateUnmapped, else BinFor(Pos, End())", n), why)
+
+	// the interval handed to BinFor has at least length one: the specification
+	// treats an alignment whose CIGAR consumes no reference as one base long
+	r.Instance(rule, 1)
+	why = ""
+	var binCall *ssa.Call
+	allInstrs(fn, func(ins ssa.Instruction) {
+		if call, ok := ins.(*ssa.Call); ok {
+			if g := staticCallee(&call.Call); g != nil && g.Name() == "BinFor" && len(call.Call.Args) == 2 {
+				binCall = call
+			}
+		}
+	})
+	if binCall == nil {
+		why = "no call of BinFor found in Bin"
+	} else {
+		const pos = 500
+		for _, e := range []int64{pos - 3, pos, pos + 1, pos + 40} {
+			env := map[string]int64{"$0.Flags": 0, "$0.Pos": pos, "$0.End()": e}
+			beg, ok1 := symValueAt(fn, binCall, binCall.Call.Args[0], env)
+			end, ok2 := symValueAt(fn, binCall, binCall.Call.Args[1], env)
+			want := e
+			if want < pos+1 {
+				want = pos + 1
+			}
+			switch {
+			case !ok1 || !ok2:
+				why = fmt.Sprintf("cannot evaluate the interval handed to BinFor (%s, %s)", symKey(binCall.Call.Args[0]), symKey(binCall.Call.Args[1]))
+			case beg != pos || end != want:
+				why = fmt.Sprintf("with Pos=%d and End()=%d the bin is computed for [%d,%d), want [%d,%d): an alignment that consumes no reference is treated as one base long (reg2bin(pos, pos+1)); with an empty interval BinFor looks at pos-1 and answers a coarser bin at every tile boundary", pos, e, beg, end, pos, want)
+			}
+			if why != "" {
+				break
+			}
+		}
+	}
+	r.Check(why == "", rule, "sam.(*Record).Bin#length-one", c.Pos(fn.Pos()), "BinFor(Pos, max(End(), Pos+1)) for the four orderings of End() and Pos+1", why)
 }
 
 func ruleBinOneWalk(c *Ctx, r *Rep, tier string) {
